@@ -45,8 +45,11 @@ var asgSwaps = map[token.Token][]string{
 	token.SHL_ASSIGN: {">>="}, token.SHR_ASSIGN: {"<<="}, token.AND_NOT_ASSIGN: {"&="}, token.MUL_ASSIGN: {"/="}, token.QUO_ASSIGN: {"*="},
 }
 
+var extra bool
+
 func main() {
 	root := os.Args[1]
+	extra = len(os.Args) > 2 && os.Args[2] == "extra"
 	var files []string
 	filepath.Walk(filepath.Join(root, "knx"), func(p string, info os.FileInfo, err error) error {
 		if err == nil && !info.IsDir() && strings.HasSuffix(p, ".go") && !strings.HasSuffix(p, "_test.go") {
@@ -69,6 +72,10 @@ func main() {
 		tf := fset.File(f.Pos())
 		var cur string
 		emit := func(pos token.Pos, n int, op, nw string) {
+			isExtra := op == "swap args" || op == "swap fields" || op == "empty if body"
+			if extra != isExtra {
+				return
+			}
 			off := tf.Offset(pos)
 			id++
 			enc.Encode(mut{id, rel, tf.Line(pos), cur, op, off, n, nw, string(src[off : off+n])})
@@ -98,6 +105,16 @@ func main() {
 			if fd.Recv != nil && len(fd.Recv.List) > 0 {
 				cur = text(fd.Recv.List[0].Type) + "." + cur
 			}
+			parentIf := map[*ast.BlockStmt]bool{}
+			ast.Inspect(fd.Body, func(n ast.Node) bool {
+				if is, ok := n.(*ast.IfStmt); ok {
+					parentIf[is.Body] = true
+					if eb, ok := is.Else.(*ast.BlockStmt); ok {
+						parentIf[eb] = true
+					}
+				}
+				return true
+			})
 			ast.Inspect(fd.Body, func(n ast.Node) bool {
 				switch x := n.(type) {
 				case *ast.BinaryExpr:
@@ -173,6 +190,29 @@ func main() {
 					}
 					if x.Low != nil {
 						emit(x.Low.Pos(), int(x.Low.End()-x.Low.Pos()), "slice lo+1", "("+text(x.Low)+")+1")
+					}
+				case *ast.CallExpr:
+					if extra {
+						for i := 0; i+1 < len(x.Args); i++ {
+							a, b := x.Args[i], x.Args[i+1]
+							emit(a.Pos(), int(b.End()-a.Pos()), "swap args", text(b)+", "+text(a))
+						}
+					}
+				case *ast.CompositeLit:
+					if extra {
+						for i := 0; i+1 < len(x.Elts); i++ {
+							ka, oka := x.Elts[i].(*ast.KeyValueExpr)
+							kb, okb := x.Elts[i+1].(*ast.KeyValueExpr)
+							if oka && okb {
+								emit(ka.Value.Pos(), int(ka.Value.End()-ka.Value.Pos()), "swap fields", text(kb.Value))
+							}
+						}
+					}
+				case *ast.BlockStmt:
+					if extra && len(x.List) > 0 {
+						if _, isIf := parentIf[x]; isIf {
+							emit(x.List[0].Pos(), int(x.List[len(x.List)-1].End()-x.List[0].Pos()), "empty if body", "")
+						}
 					}
 				case *ast.CaseClause:
 					if len(x.Body) > 0 && len(x.List) > 0 {
